@@ -82,10 +82,13 @@ def import_spellings(q):
            ("importlib_import_module", f"import importlib\nimportlib.import_module('{q}')\n"),
            ("importlib_dunder", f"import importlib\nimportlib.__import__('{q}')\n"),
            ("importlib_kw", f"import importlib\nimportlib.import_module(name='{q}')\n"),
-           ("import_multi", f"import os, {q}\n")]
+           ("import_multi", f"import os, {q}\n"),
+           ("import_backslash", f"import os, \\\n    {q}\n"),
+           ("from_paren_multiline", f"from {q} import (\n    alpha,\n    beta,\n)\n")]
     if "." in q:
         p, m = q.rsplit(".", 1)
         out.append(("from_parent_import", f"from {p} import {m}\n"))
+        out.append(("from_parent_paren_later_line", f"from {p} import (\n    zzz_other,\n    {m},\n)\n"))
     return out
 
 
@@ -136,6 +139,18 @@ def run(res, ctx):
                         src = tmpl.format(pre=pre, call=call)
                         line = pre.count("\n") + 1 + off
                         cases.append((src, ("hit", first["id"], first.get("level", "MEDIUM"), line), dict(kind="call", rule=r["id"], q=q, spelling=label, context=cname, layout=lay)))
+            # a method / nested def / nested class that merely has the same NAME as the bound name does not rebind it
+            for label, pre, callee in call_spellings(q)[: (None if thorough else 3)]:
+                bound = callee.split(".")[0]
+                shadows = [f"class K_:\n    def {bound}(self, v):\n        return v\n",
+                           f"def outer_():\n    def {bound}(v):\n        return v\n    return 1\n",
+                           f"def outer2_():\n    class {bound}:\n        pass\n    return 1\n"]
+                sh = rng.choice(shadows) if not thorough else None
+                for shadow in ([sh] if sh else shadows):
+                    pre2 = pre + shadow
+                    src = pre2 + f"x = {callee}(a)\n"
+                    line = pre2.count("\n") + 1
+                    cases.append((src, ("hit", first["id"], first.get("level", "MEDIUM"), line), dict(kind="call", rule=r["id"], q=q, spelling=label + "+shadow", context="after-shadowing-def")))
             for label, pre, callee in call_near_misses(q):
                 cname, tmpl, off = rng.choice(CONTEXTS)
                 src = tmpl.format(pre=pre, call=callee + "(a)")
@@ -151,6 +166,10 @@ def run(res, ctx):
             name = q if label not in ("import_sub", "from_sub_import") else q + ".sub"
             if label in ("from_import", "from_import_as"):
                 name = q + ".thing"
+            if label == "from_paren_multiline":
+                name = q + ".alpha"
+            if label in ("import_backslash", "from_paren_multiline", "from_parent_paren_later_line"):
+                line = 1          # the statement starts on its first physical line
             if label == "from_sub_import":
                 name = q + ".sub.thing"
             for rr in import_rules:
